@@ -118,7 +118,7 @@ var evalToBoolOperators = [22]bool{
 	ast.OperatorNotContains:  true,
 }
 
-var operatorsOfKind = [...][22]bool{
+var operatorsOfKind = [reflect.UnsafePointer + 1][22]bool{
 	reflect.Bool:       boolOperators,
 	reflect.Int:        intOperators,
 	reflect.Int8:       intOperators,
